@@ -135,4 +135,14 @@ def Deliv.now (h : Heap) (d : Deliv) : List Nat := (cells h d.s.arr).take d.s.le
 /-- Bool observer: all delivered, unfinished sequences still read what they read at delivery. -/
 def allIntact (s : St) : Bool := s.delivered.all fun d => d.now s.heap == d.snap
 
+/-- ESC `A` F (delivered as #A over array 0), ESC `B` `C` F (delivered as #B over array 1),
+    `Finish(#A)`, ESC `D` F with `Get()` returning #A's slice — with its stale `len = 1` —,
+    ESC (`clear`) `E`: the `E` is written in place into array 0. -/
+def reuseTrace : List Label :=
+  [.collect 65 1, .dispatch none,
+   .clear, .collect 66 0, .collect 67 0, .dispatch none,
+   .finish 1,
+   .clear, .collect 68 0, .dispatch (some 0),
+   .clear, .collect 69 0]
+
 end VaxisModel.Model.ParserPools
